@@ -44,7 +44,7 @@ def main():
                     return r.get("status") == "violation"
                 if not fails([]):
                     continue  # already covered by keys added in this round
-                culprits = [c for c in cands if not fails([c])][:1]
+                culprits = [c for c in cands if not fails([c])][:1] if len(cands) <= 6 else []
                 if not culprits and cands and not fails(cands):
                     keep = list(cands)
                     for c in list(keep):
